@@ -176,8 +176,87 @@ static Inst instantiate(const Tmpl& t, const Ctx& c, const std::vector<gen::Key>
     return I;
 }
 
+// runs one explicit session in a fresh process (this binary re-executed with --replay): the session is then the FIRST thing the process does
+// with the interpreter - as in the command-line tools, which start a process per run - whereas the engine otherwise runs thousands of
+// sessions per worker process (a fork would inherit the worker's function-local statics, lazily built globals and caches; both situations
+// are covered). The replay runs the session twice in that process: a difference between the two runs is reported as well.
+static void in_fresh_process(const Ctx& c, const bytes& script, const std::vector<bytes>& stack, uint32_t flags, const std::string& label, const std::string& klass, Violations& V, Stats2& S) {
+    J rj = explicit_json(c, script, stack, flags, label);
+    char path[] = "/tmp/mc_sig_fresh_XXXXXX"; int fd = mkstemp(path); if (fd < 0) return;
+    { std::string js = rj.s; ssize_t w = write(fd, js.data(), js.size()); (void)w; close(fd); }
+    static std::string self; if (self.empty()) { char b[4096]; ssize_t n = readlink("/proc/self/exe", b, sizeof b - 1); if (n <= 0) return; b[n] = 0; self = b; }
+    std::string cmd = "'" + self + "' --replay " + path + " 2>/dev/null";
+    FILE* p = popen(cmd.c_str(), "r"); std::string out; if (p) { char buf[4096]; size_t n; while ((n = fread(buf, 1, sizeof buf, p)) > 0) out.append(buf, n); }
+    int st = p ? pclose(p) : -1; unlink(path);
+    S.sessions++;
+    int rc = WIFEXITED(st) ? WEXITSTATUS(st) : -1;
+    if (rc == 0) return;
+    if (rc == 2) { V.add("c02:fresh-process:second-run-differs:" + klass, "in a fresh process the session gives one result the first time and another the second time [" + label + "]", rj); return; }
+    if (rc != 1) { V.add("c02:fresh-process:died:" + klass, "the fresh process ended abnormally (status " + std::to_string(st) + ") [" + label + "]", rj); return; }
+    size_t pos = out.find("DIVERGENCE "); std::string what = pos == std::string::npos ? out : out.substr(pos + 11, out.find('\n', pos) - pos - 11);
+    // the key of the divergence with the replay's class replaced by ours
+    std::string key = what.substr(0, what.find(": "));
+    size_t r = key.find("replay"); if (r != std::string::npos) key.replace(r, 6, klass);
+    V.add("fresh-process:" + key, "as the first session of a process: " + what + " [" + label + "]", rj);
+}
+
+// ---- C04 over sessions with real signatures: a session whose signature checks pass only with the right script code / digest (code separators
+// between checks) is stepped to every depth M and from there rewound step by step to the start; after each rewind the session is continued
+// to the end: stack trace and final stack are those of the uninterrupted run (a cache of anything derived from the position - script code,
+// digests - that a rewind does not invalidate shows here and nowhere else, because dummy signatures fail whatever they are checked against)
+static void rewind_roundtrip(const Ctx& c, const bytes& script, const std::vector<bytes>& stack, uint32_t flags, const std::string& label, const std::string& klass, Violations& V, Stats2& S) {
+    J rj = explicit_json(c, script, stack, flags, label);
+    { size_t m = rj.s.find("\"mode\":\"explicit\""); if (m != std::string::npos) rj.s.replace(m, 17, "\"mode\":\"c04sig\""); }
+    note(rj.s);
+    auto rep = [&](const std::string& key, const std::string& what) { V.add(key, what + " [" + label + " | " + c.label + " flags=" + alpha::flags_str(flags) + "]", rj); };
+    // the uninterrupted run
+    std::vector<std::vector<bytes>> trace; std::string ferr;
+    { Explicit E; if (!E.open(c, script, stack, flags, {}, true)) return; trace.push_back(E.inst.env->stack);
+      while (!E.inst.at_end()) { std::string e = E.step(); if (e != "") { ferr = e; break; } trace.push_back(E.inst.env->stack); if (trace.size() > 2000) return; } }
+    if (ferr != "") return;   // sessions with a failing step are outside C04's quantifier
+    int N = int(trace.size()) - 1;
+    S.sessions++;
+    for (int M = 1; M <= N; M++) for (int R = 1; R <= M; R++) {
+        Explicit E; if (!E.open(c, script, stack, flags, {}, true)) return;
+        for (int i = 0; i < M; i++) E.step();
+        int done = 0; for (; done < R; done++) if (!E.inst.rewind()) break;
+        S.steps += M + done;
+        if (E.inst.env->stack != trace[M - done]) { rep("c04:signed-session:rewind-state:" + klass, "after " + std::to_string(M) + " steps and " + std::to_string(done) + " rewinds the stack is " + impl::stack_str(E.inst.env->stack) + ", a fresh session after " + std::to_string(M - done) + " steps has " + impl::stack_str(trace[M - done])); return; }
+        int at = M - done; std::string e;
+        while (!E.inst.at_end() && at < N + 2) { e = E.step(); if (e != "") break; at++; if (at <= N && E.inst.env->stack != trace[at]) { rep("c04:signed-session:continuation-state:" + klass, "after " + std::to_string(M) + " steps, " + std::to_string(done) + " rewinds and continuing to step " + std::to_string(at) + " the stack is " + impl::stack_str(E.inst.env->stack) + ", the uninterrupted run has " + impl::stack_str(trace[at])); return; } }
+        if (e != "" || at != N) { rep("c04:signed-session:continuation-outcome:" + klass, "after " + std::to_string(M) + " steps and " + std::to_string(done) + " rewinds the continued session " + (e != "" ? "fails with " + e + " at step " + std::to_string(at + 1) : "ends after " + std::to_string(at) + " steps") + "; the uninterrupted run succeeds in " + std::to_string(N) + " steps"); return; }
+    }
+}
+static void gen_c04sig(const std::string& tier, std::vector<struct Work>& W);
+
 // ------------------------------------------------------------------------------------------- work items
 struct Work { std::function<void(Violations&, Stats2&)> run; std::string label; };
+
+static void gen_c04sig(const std::string& tier, std::vector<Work>& W) {
+    bool th = tier != "quick";
+    std::vector<gen::Key> keys = {gen::make_key(1), gen::make_key(2), gen::make_key(3)};
+    auto T = ecdsa_templates();
+    for (size_t ti = 0; ti < T.size(); ti++) for (SigVer sv : {SigVer::BASE, SigVer::WITNESS_V0}) for (auto sh : std::vector<std::array<int, 3>>{{1, 1, 0}, {2, 3, 1}}) {
+        if (!th && sh[0] == 2 && T[ti].slots.size() < 2) continue;
+        Ctx c = make_ctx(sh[0], sh[1], sh[2], 123456789, sv);
+        W.push_back({[=](Violations& V, Stats2& S) {
+            auto T2 = ecdsa_templates();
+            for (uint8_t ht : std::vector<uint8_t>{1, 0x83}) for (uint32_t fl : std::vector<uint32_t>{0u, F_STANDARD & ~F_CONST_SCRIPTCODE}) {
+                Inst I = instantiate(T2[ti], c, keys, {ht});
+                rewind_roundtrip(c, I.script, I.stack, fl, T2[ti].name + " hashtype=" + std::to_string(ht), T2[ti].name, V, S);
+            }
+            // two checks around a code separator where the FIRST check fails (its signature is the second one's): false goes to the alt stack,
+            // the second check passes - rewinding across the separator must bring back the first check's own script code
+            if (T2[ti].slots.size() == 1) {
+                Inst I = instantiate(T2[ti], c, keys, {1});
+                bytes pre = C({P(I.stack.back()), P(keys[0].pub), O(0xac), O(0x6b), O(0xab)});   // <sig> <key0> CHECKSIG TOALTSTACK CODESEPARATOR, then the template
+                bytes sc2 = pre; sc2.insert(sc2.end(), I.script.begin(), I.script.end());
+                // the template's signature was made for the script code of the template alone, which is what follows the separator
+                rewind_roundtrip(c, sc2, I.stack, F_STANDARD & ~(F_CONST_SCRIPTCODE | F_NULLFAIL), T2[ti].name + " after <sig> <key> CHECKSIG TOALTSTACK CODESEPARATOR", "prefixed:" + T2[ti].name, V, S);
+            }
+        }, "signed rewinds " + T[ti].name});
+    }
+}
 
 static void gen_c02_ecdsa(const std::string& tier, std::vector<Work>& W) {
     bool th = tier != "quick";
@@ -194,6 +273,30 @@ static void gen_c02_ecdsa(const std::string& tier, std::vector<Work>& W) {
                     compare_explicit(c, I.script, I.stack, fl, "CHECKSIG hashtype=" + std::to_string(ht), "hashtype", V, S);
                 }
             }, "hashtypes " + c.label});
+        }
+    }
+    // (1b) templates with two signatures: every ORDERED pair of hash types (each signature has its own digest; what one check computed -
+    //      BIP143's hashPrevouts / hashSequence / hashOutputs are blank or different for ANYONECANPAY, NONE, SINGLE - must not reach the next),
+    //      one-input and multi-input transactions
+    {
+        auto T2 = ecdsa_templates();
+        std::vector<uint8_t> hp = {1, 2, 3, 0x81, 0x82, 0x83};
+        for (size_t ti = 0; ti < T2.size(); ti++) {
+            if (T2[ti].slots.size() < 2) continue;
+            for (SigVer sv : {SigVer::BASE, SigVer::WITNESS_V0}) for (auto sh : std::vector<std::array<int, 3>>{{1, 1, 0}, {3, 2, 2}, {2, 3, 1}}) {
+                if (!th && sv == SigVer::BASE && sh[0] == 3) continue;
+                Ctx c = make_ctx(sh[0], sh[1], sh[2], 123456789, sv);
+                W.push_back({[=](Violations& V, Stats2& S) {
+                    auto T3 = ecdsa_templates();
+                    for (uint8_t h1 : hp) for (uint8_t h2 : hp) for (uint32_t fl : std::vector<uint32_t>{F_STANDARD}) {
+                        Inst I = instantiate(T3[ti], c, keys, {h1, h2});
+                        std::string lab = T3[ti].name + " hashtypes " + std::to_string(h1) + "," + std::to_string(h2);
+                        compare_explicit(c, I.script, I.stack, fl, lab, "template-hashtype-pair:" + T3[ti].name, V, S);
+                        // ... and as the first session of a process of its own
+                        in_fresh_process(c, I.script, I.stack, fl, lab + " (fresh process)", "template-hashtype-pair:" + T3[ti].name, V, S);
+                    }
+                }, "hashtype pairs " + T2[ti].name});
+            }
         }
     }
     // (2) every template x a hash-type set x {BASE, V0} x two shapes x flags {NONE, STANDARD, STANDARD-CONST_SCRIPTCODE}
@@ -511,6 +614,16 @@ static void gen_c11(const std::string& tier, std::vector<Work>& W) {
                 // (2) a signature other than the listed one offered for a mocked key is not accepted on the strength of the option
                 for (auto& p : L) { bytes sc = C({P(p.second), O(0xac)}); bool listed = false; for (auto& q : L) if (q.first == s3 && q.second == p.second) listed = true; if (!listed) compare_explicit(c, sc, {s3}, fl & ~(F_STRICTENC | F_DERSIG | F_LOW_S | F_NULLFAIL), "unlisted signature for a mocked key list=" + ldesc, "mock:other-signature", V, S, L, with_tx, false, "c11"); }
             }
+            // (2c) two checks in one script: what an earlier lookup found must not decide a later one. For every listed pair (S, P) and every
+            //      other listed key P2 (P itself included): S for P first, then an unlisted signature for P2 - and the other way round -, as two
+            //      CHECKSIGs and as a 2-of-2 multisig; the unlisted signature is rejected exactly as in a script of its own
+            for (uint32_t fl : {0u}) for (auto& pa : L) for (auto& pb : L) {
+                bool listed = false; for (auto& q : L) if (q.first == s3 && q.second == pb.second) listed = true;
+                if (listed) continue;
+                { bytes sc = C({P(pa.second), O(0xad), P(pb.second), O(0xac)}); compare_explicit(c, sc, {s3, pa.first}, fl, "listed pair checked first, then an unlisted signature for a listed key, list=" + ldesc, "mock:two-checks:listed-then-unlisted", V, S, L, with_tx, false, "c11"); }
+                { bytes sc = C({P(pb.second), O(0xac), O(0x91), O(0x69), P(pa.second), O(0xac)}); compare_explicit(c, sc, {pa.first, s3}, fl, "unlisted signature for a listed key checked first, then a listed pair, list=" + ldesc, "mock:two-checks:unlisted-then-listed", V, S, L, with_tx, false, "c11"); }
+                if (pa.second != pb.second) { bytes sc = C({O(0x52), P(pb.second), P(pa.second), O(0x52), O(0xae)}); compare_explicit(c, sc, {{}, s3, pa.first}, fl, "2-of-2 multisig: listed pair matched first, then an unlisted signature for the other listed key, list=" + ldesc, "mock:two-checks:multisig", V, S, L, with_tx, false, "c11"); }
+            }
             // (2b) a signature listed for one key offered to another mocked key it is not listed with
             for (uint32_t fl : {0u}) for (auto& pa : L) for (auto& pb : L) {
                 if (pa.second == pb.second) continue;
@@ -675,6 +788,9 @@ int main(int argc, char** argv) {
                 Ctx c; parse_tx(unhex(r["tx"].s), c.tx); parse_tx(unhex(r["txin"].s), c.fund); c.k = int(r["k"].i()); c.amount = r["amount"].i(); c.sv = SigVer(r["sv"].i()); c.label = "replay";
                 std::vector<std::pair<bytes, bytes>> mocks; for (auto& m : r["mocks"].a) mocks.push_back({unhex(m.a[0].s), unhex(m.a[1].s)});
                 Stats2 s; compare_explicit(c, unhex(r["script"].s), impl::stack_from_json(r["stack"]), uint32_t(r["flags"].i()), r["label"].s, "replay", *vv, s, mocks, true, vv == &V1);
+            } else if (r["mode"].s == "c04sig") {
+                Ctx c; parse_tx(unhex(r["tx"].s), c.tx); parse_tx(unhex(r["txin"].s), c.fund); c.k = int(r["k"].i()); c.amount = r["amount"].i(); c.sv = SigVer(r["sv"].i()); c.label = "replay";
+                Stats2 s; rewind_roundtrip(c, unhex(r["script"].s), impl::stack_from_json(r["stack"]), uint32_t(r["flags"].i()), r["label"].s, "replay", *vv, s);
             } else if (r["mode"].s == "c11-auto") {
                 std::string stage; bool ok = run_auto_mock(r["tx"].s, r["txin"].s, r["list"].s, stage);
                 if (ok != r["expect_ok"].b) vv->add("c11:auto:replay", r["label"].s + ": expected " + (r["expect_ok"].b ? "success" : "failure") + ", got " + (ok ? "success" : "failure at " + stage), J::raw("{}"));
@@ -690,6 +806,7 @@ int main(int argc, char** argv) {
     std::vector<Work> W;
     if (mode == "c02") { gen_c02_ecdsa(tier, W); gen_c02_schnorr(tier, W); }
     else if (mode == "locktime") gen_locktime(tier, W);
+    else if (mode == "c04sig") gen_c04sig(tier, W);
     else gen_c11(tier, W);
     Stats2 S;
     std::string tmp = make_tmpdir();
